@@ -320,6 +320,16 @@ def _selection_table(p, ini):
                     if common.const_str(k) and self_attr(v):
                         sel[common.const_str(k)] = self_attr(v)
             continue
+        # `getattr(self, <name chosen by a chain of comparisons of the requested method>)`: first matching row of a name table
+        if isinstance(n.value, ast.Call) and isinstance(n.value.func, ast.Name) and n.value.func.id == "getattr" and len(n.value.args) == 2 and is_self(n.value.args[0]):
+            chain = common.resolve_local(ini.node, n.value.args[1])
+            while isinstance(chain, ast.IfExp):
+                ks = keys_of(chain.test, lambda e: self_attr(e) == "_bin_evaluation")
+                if common.const_str(chain.body):
+                    for k in ks:
+                        sel.setdefault(k, common.const_str(chain.body))   # (an earlier row wins)
+                chain = chain.orelse
+            continue
         if self_attr(n.value):
             from ..canon import negate
             for cnd, pol in common.guard_conditions(ini.node, n):
